@@ -27,7 +27,7 @@ from fractions import Fraction
 
 from ..model import AnalysisError
 from ..symex import Symex, Obj
-from ..terms import (T, sym, strip, expand_products, product_key, multiset, multiset_diff, subterms, canon, is_num,
+from ..terms import (T, sym, strip, strip_occ, expand_products, product_key, multiset, multiset_diff, subterms, canon, is_num,
                      args_of, show)
 
 GS = "groundstate:GroundState"
@@ -51,7 +51,7 @@ INLINE = {"func:gen_term_orders", "indices:n_ov_from_space", f"{IS}._generate_lo
           "indices:repeated_indices", "indices:split_idx_string"}
 
 
-DERIV_MODULES = ("groundstate", "intermediate_states", "secular_matrix", "properties")
+DERIV_MODULES = ("groundstate", "intermediate_states", "secular_matrix", "properties", "operators")
 # the vocabulary: derivation methods that stay uninterpreted when another function is evaluated
 VOCAB = set(ORDER_KW) | {"amplitude_vector", "operator", "excitation_operator", "h0", "h1", "mvp_block_order",
                          "expectation_value_block_order", "mvp", "trans_moment_space", "expand_S_taylor",
@@ -105,18 +105,54 @@ class Scenario:
         self.generated.clear()
 
 
+def nothing_vanishes(sx, atom):
+    """Oracle: no vocabulary term is zero (only the full path is explored)."""
+    return False if _is_zero_atom(atom) else None
+
+
 def make_sx(ctx, what, scen, extra_inline=(), hooks=None, **kw):
     hk = scen.hooks()
     hk.update(hooks or {})
+    kw.setdefault("occurrence", lambda name: name in ORDER_KW)
     sx = Symex(ctx.model, inline=lambda q: inline(q) or q in extra_inline, hooks=hk, what=what, **kw)
     sx.on_start = scen.reset
     return sx
 
 
+def val(o):
+    """Value of an outcome without the call-event tags."""
+    return strip_occ(o.value)
+
+
 def skeleton(value):
-    """Value-preserving wrappers removed, products distributed."""
-    v = strip(value, TRANSPARENT_CALLS, TRANSPARENT_MCALLS, TRANSPARENT_ATTRS)
+    """Value-preserving wrappers and call-event tags removed, products distributed."""
+    v = strip(strip_occ(value), TRANSPARENT_CALLS, TRANSPARENT_MCALLS, TRANSPARENT_ATTRS)
     return expand_products(v)
+
+
+def aliased_factors(value):
+    """Products in which one call result (one set of summation indices) is used as a factor twice."""
+    v = strip(value, TRANSPARENT_CALLS, TRANSPARENT_MCALLS, TRANSPARENT_ATTRS)
+    bad = []
+    for c, fs in expand_products(v):
+        seen = {}
+        stack = list(fs)
+        while stack:
+            f = stack.pop()
+            if isinstance(f, T) and f.op == "occ":
+                seen[f] = seen.get(f, 0) + 1
+            elif isinstance(f, T) and f.op == "call" and f.args[0] == "wicks":
+                e = args_of(f).get("expr")
+                for _, gs in expand_products(e):
+                    stack.extend(gs)
+            elif isinstance(f, T) and f.op in ("item", "attr", "pow"):
+                stack.append(f.args[0])
+            elif isinstance(f, T) and f.op == "call" and f.args[0] in ("NO", "Dagger"):
+                stack.extend(x for x in f.args[1])
+        for f, n in seen.items():
+            if n > 1:
+                bad.append((f, n))
+    return bad
 
 
 def is_scalar(f):
@@ -226,3 +262,133 @@ def lift(space, root=False):
     no, nv = space.count("h"), space.count("p")
     f = Fraction(1, math.factorial(no) * math.factorial(nv))
     return f
+
+
+# ------------------------------------------------------------------ model of the few sympy calls of the Taylor builders
+
+def taylor_hooks():
+    """``symbols``, ``diff``, ``.subs`` and ``nsimplify`` on functions c * (1 + x) ** p (exact rational calculus)."""
+    from ..terms import t_pow, t_mul, factors
+
+    def split(f):
+        c, base, p = 1, None, None
+        for x in factors(f):
+            if is_num(x):
+                c = c * x
+            elif isinstance(x, T) and x.op == "pow" and is_num(x.args[1]):
+                base, p = x.args[0], Fraction(x.args[1])
+            elif isinstance(x, T) and x.op == "add":
+                base, p = x, Fraction(1)
+            else:
+                return None
+        return c, base, p
+
+    def symbols(sx, a, kw):
+        return sym(str(a[0]))
+
+    def diff(sx, a, kw):
+        s = split(a[0])
+        if s is None or s[1] is None:
+            return NotImplemented
+        c, base, p = s
+        return t_mul(c * p, t_pow(base, p - 1))
+
+    def subs(sx, a, kw):
+        recv, var, val = a[0], a[1], a[2]
+        s = split(recv)
+        if s is None or val != 0:
+            return NotImplemented
+        c, base, p = s
+        return c
+
+    def nsimplify(sx, a, kw):
+        v = a[0]
+        if is_num(v):
+            v = Fraction(v)
+            return int(v) if v.denominator == 1 else v
+        return NotImplemented
+    return {"symbols": symbols, "diff": diff, "subs": subs, "nsimplify": nsimplify}
+
+
+def taylor_coefficient(p, k):
+    """k-th Taylor coefficient of (1 + x) ** p."""
+    c = Fraction(1)
+    for i in range(k):
+        c = c * (Fraction(p) - i)
+    return c / math.factorial(k)
+
+
+# ------------------------------------------------------------------ formula comparison on all paths
+
+def _variants(prods):
+    full = multiset(product_key(c, fs, is_scalar) for c, fs in prods)
+    nocoef = multiset(product_key(1, fs, is_scalar) for c, fs in prods)
+    comm = multiset(product_key(1, fs, lambda f: True) for c, fs in prods)
+    return full, nocoef, comm
+
+
+def has_factor(prod_term, z):
+    """z is a factor of the product term (also inside the operator string of a wicks call)."""
+    for c, fs in expand_products(prod_term):
+        for f in fs:
+            if f == z:
+                return True
+            if isinstance(f, T) and f.op == "call" and f.args[0] == "wicks":
+                e = args_of(f).get("expr")
+                if any(g == z for _, gs in expand_products(e) for g in gs):
+                    return True
+    return False
+
+
+def check_formula(ctx, rule, fn, what, outs, formula, key, only_full=False, min_paths=1):
+    """``formula``: list of expected product terms.  On every returning path the evaluated skeleton must equal the
+    formula without the products that contain a factor the path decided to vanish."""
+    rets = [o for o in outs if o.kind == "return"]
+    if len(rets) < min_paths:
+        excs = sorted({str(o.exc) for o in outs if o.kind == "raise"})
+        ctx.bad(rule, fn, f"{what}: valid input does not return ({len(rets)} returning paths; raises {excs})", key=f"{key} returns")
+        return 0
+    n_ok = 0
+    for o in rets:
+        zeros = zero_tests(o)
+        if zeros and only_full:
+            continue
+        zeros = [strip_occ(z) for z in zeros]
+        al = aliased_factors(o.value)
+        ctx.check("D4", fn, not al, f"{what}: every factor of a product stems from its own call (own summation indices)",
+                  f"{what}: the result of one call {show(al[0][0])[:160] if al else ''} is used {al[0][1] if al else 0} times as a factor of the same "
+                  "product: its summation indices are shared between the factors", key=f"{key} fresh")
+        want_terms = [p for p in formula if not any(has_factor(p, z) for z in zeros)]
+        want = sum((expand_products(p) for p in want_terms), [])
+        got = skeleton(o.value)
+        wf, wn, wc = _variants(want)
+        gf, gn, gc = _variants(got)
+        tag = "full" if not zeros else "zero " + ",".join(sorted(show(z)[:60] for z in zeros))
+        if gf == wf:
+            ctx.ok(rule, fn, f"{what} [{tag}]: {len(want)} products equal the formula", key=f"{key} {tag}")
+            n_ok += 1
+            continue
+        if gn == wn:
+            r = "D3"
+            why = "the products agree but their numerical prefactors differ"
+        elif gc == wc:
+            r = "D2"
+            why = "the products agree up to the order of non-commuting factors (<bra| op |ket> order)"
+        else:
+            go = multiset(tuple(sorted(o_ for o_ in (order_of(f) for f in fs) if o_ is not None)) for c, fs in got)
+            wo = multiset(tuple(sorted(o_ for o_ in (order_of(f) for f in fs) if o_ is not None)) for c, fs in want)
+            r = "D1" if go != wo else rule
+            why = "the order splits differ" if go != wo else "different products"
+        missing, surplus = multiset_diff(gf, wf)
+        msg = f"{what} [{tag}]: skeleton differs from the formula ({why}); missing {len(missing)}, surplus {len(surplus)}"
+        if missing:
+            msg += f"; first missing: {missing[0][:500]}"
+        if surplus:
+            msg += f"; first surplus: {surplus[0][:500]}"
+        ctx.bad(r, fn, msg, key=f"{key} {tag}")
+    return n_ok
+
+
+def all_raise(ctx, rule, fn, what, outs, key):
+    ctx.check(rule, fn, bool(outs) and all(o.kind == "raise" for o in outs), f"{what}: refused",
+              f"{what}: accepted ({[o for o in outs if o.kind != 'raise'][:1]})", key=key)
